@@ -277,6 +277,7 @@ _E = [
     {"slot": 1, "dur_s": 1, "sub_us": 0, "data": {"k": "A"}},
     {"slot": 2, "dur_s": 0, "sub_us": 0, "data": {"k": "B"}},  # zero-length, starts at the end of _E[0]: end-instant tie
     {"slot": 1, "dur_s": 2, "sub_us": 0, "data": {"k": "C"}},  # same timestamp as _E[0]: timestamp tie
+    {"slot": 5, "dur_s": 1, "sub_us": 0, "data": {"k": "D"}},  # later than everything else: a replace with it moves an old event to the front
 ]
 ALPHABET = [
     {"op": "insert", "b": 0, "e": _E[0]},
@@ -286,6 +287,7 @@ ALPHABET = [
     {"op": "upsert_many", "b": 0, "items": [{"e": _E[2], "k": 0}, {"e": _E[1], "k": None}]},
     {"op": "replace", "b": 0, "k": 0, "e": _E[1]},
     {"op": "replace", "b": 0, "k": 1, "e": _E[2]},
+    {"op": "replace", "b": 0, "k": 0, "e": _E[3]},
     {"op": "replace_last", "b": 0, "e": _E[0]},
     {"op": "replace_last", "b": 0, "e": _E[1]},
     {"op": "delete", "b": 0, "k": 0, "never": False},
@@ -293,7 +295,7 @@ ALPHABET = [
     {"op": "delete", "b": 0, "k": 0, "never": True},
     {"op": "insert", "b": 1, "e": _E[1]},
 ]
-EXHAUSTIVE_NOTE = f"extra phase 'small_scope': every history of length <= L over an alphabet of {len(ALPHABET)} operations (inserts of three events with timestamp and end-instant ties, bulk insert, upsert, replace, replace_last, delete of first/second/never-issued id, insert into a second bucket), on all three backends (quick L=3: 2 379 histories; thorough L=4: 30 940)"
+EXHAUSTIVE_NOTE = f"extra phase 'small_scope': every history of length <= L over an alphabet of {len(ALPHABET)} operations (inserts of three events with timestamp and end-instant ties, bulk insert, upsert, replace, replace_last, delete of first/second/never-issued id, insert into a second bucket), on all three backends started from an empty store and from a bucket holding an older and a newer event (quick L=3: 2 x 2 954 histories; thorough L=4: 2 x 41 370)"
 
 
 def extra_phases(tier, seed, jobs):
@@ -305,12 +307,13 @@ def phase_small_scope(task):
 
     st_ = Stats()
     k = 0
-    for L in range(1, task["L"] + 1):
+    prefixes = [[], [0, 1]]  # from an empty store, and from a bucket that already holds an older and a newer event
+    for prefix, L in [(p_, L_) for p_ in prefixes for L_ in range(1, task["L"] + 1)]:
         for combo in itertools.product(range(len(ALPHABET)), repeat=L):
             k += 1
             if k % task["n"] != task["i"]:
                 continue
-            case = {"nb": 2, "ops": [json.loads(json.dumps(ALPHABET[j])) for j in combo]}
+            case = {"nb": 2, "ops": [json.loads(json.dumps(ALPHABET[j])) for j in list(prefix) + list(combo)]}
             try:
                 run_case(case)
             except Violation as v:
